@@ -434,6 +434,14 @@ func (e *Engine) registerCrypto() {
 	nfold := func(r *Run, fr *Frame, cc *ssa.CallCommon, a []Value) Value {
 		m := sliceBytes(a[0].(*SliceV))
 		n := int(r.concretise(a[1].(*Term), "nfold n"))
+		if len(m) == 0 {
+			// the reference n-fold of the empty string is all zero (nothing is added up), as natively
+			z := make([]*Term, n/8)
+			for i := range z {
+				z[i] = BVu(0, 8)
+			}
+			return r.bytesToSlice(z)
+		}
 		out := ufBytes(fmt.Sprintf("NFOLD_%d", n), n/8, m)
 		if r.inst.stubSet["idealmac"] && len(m) > 0 {
 			r.injective(fmt.Sprintf("NFOLD_%d", n), m, out)
@@ -463,7 +471,15 @@ func (e *Engine) registerCrypto() {
 	in["ocadduf:github.com/jcmturner/gokrb5/v8/crypto/rfc3961.onesComplementAddition"] = ocadd
 	in[rtPkg+".Nfold"] = nfold
 	// summary of the real n-fold by the same symbol (its own correctness is a separate obligation, C08)
-	in["nfolduf:github.com/jcmturner/gokrb5/v8/crypto/rfc3961.Nfold"] = nfold
+	// the summary of the real Nfold applies to non-empty inputs and n > 0 (the cases the structure lemmas of C08
+	// cover); the degenerate cases run the real code, which decides itself whether it panics (found by the
+	// translator-validation witnesses: the native run of a "completed" path divided by zero)
+	in["nfolduf:github.com/jcmturner/gokrb5/v8/crypto/rfc3961.Nfold"] = func(r *Run, fr *Frame, cc *ssa.CallCommon, a []Value) Value {
+		if n, ok := idxConst(a[1].(*Term)); a[0].(*SliceV).len == 0 || (ok && n <= 0) {
+			return r.callReal(fr, r.eng.fnByName["github.com/jcmturner/gokrb5/v8/crypto/rfc3961.Nfold"], a, lbl("Nfold (degenerate input)"))
+		}
+		return nfold(r, fr, cc, a)
+	}
 }
 
 func pbkdf2Bytes(alg string, pw, salt []*Term, iter *Term, kl int) []*Term {
